@@ -43,6 +43,8 @@ func BindPlacer(srcPath, dstPath fs.AbsolutePath, writable bool) (Janitor, error
 	if !writable {
 		flags |= syscall.MS_RDONLY | syscall.MS_REMOUNT
 		if err := syscall.Mount(srcPath.String(), dstPath.String(), "bind", uintptr(flags), ""); err != nil {
+			// Do not leave the writable bind behind: nobody would hold a janitor for it.
+			syscall.Unmount(dstPath.String(), 0)
 			return nil, Errorf(rio.ErrAssemblyInvalid, "error placing with bind mount: %s", err)
 		}
 	}
